@@ -188,6 +188,16 @@ func (p *slotPool) get() (slot int, blk []int, ok bool) {
 		blk[i] = p.base + slot*p.size + i
 	}
 	ok = h.Eventually(15*time.Second, func() bool {
+		// frps closes a proxy's listener first and releases the port in its own accounting afterwards:
+		// the block is free when the operating system and the server's port manager both say so
+		if srv != nil {
+			used := srv.Snapshot().TCPPorts.Used
+			for _, q := range blk {
+				if _, busy := used[q]; busy {
+					return false
+				}
+			}
+		}
 		for _, q := range blk {
 			l, err := net.Listen("tcp", "127.0.0.1:"+strconv.Itoa(q))
 			if err != nil {
